@@ -80,6 +80,14 @@ CLAIMED = {
     note="Area [0,N], resolution 1; agreement with the exact interpolant limited to 2e-5 by the code's 1e-7 node shift; the h^2 bound for arbitrary C2 functions is not decided (polynomial family only).",
     technique="TLA+ cache-protocol state machine + exact integer Hermite interpolant, TLC-explored evaluation orders replayed on the code",
     design="4.14"),
+ "C20": dict(
+    text="GridOps.tla enumerates (grid size 2..4 x 2..4, voxel width/height, operator, integer polynomial field, cell) rows with the exact derivative the statement demands "
+         "(constants, linear fields for Dx/Dy in every cell, bilinear for Dxy in every cell, quadratics for Dxx/Dyy in interior cells) and (flux map, field, anisotropy 1/2/10, interior cell) rows with "
+         "div(D grad f) in cylindrical geometry as an exact integer fraction; TLC checks the Laplacian limit and annihilation of constants on the formula and ~6 300 rows are evaluated on the real "
+         "generate_derivative_operators / calculate_admt (1e-9), which must also leave the operators passed in unchanged.",
+    note="Polynomial (quadratic) flux maps and fields on integer cell centres only: the coefficient formulas are verified, not the truncation order for non-polynomial flux maps.",
+    technique="TLA+ exact integer case table enumerated by TLC, one operator-row test per case",
+    design="4.20"),
 }
 
 NOT_YET = {}
